@@ -61,6 +61,6 @@ def make(name: str, *args):
 
         return LifecycleScenario()
     if name in ("C05", "C09", "C12"):
-        weights = {"C05": (3, 2), "C09": (3, 1), "C12": (3, 1)}[name]
+        weights = {"C05": (3, 2), "C09": (3, 2), "C12": (3, 2)}[name]
         return Mix(name, [(weights[0], WorldScenario(name)), (weights[1], ConcatScenario(name))])
     raise KeyError(f"no scenario for {name}")
